@@ -469,6 +469,19 @@ class ParserModel:
                     continue
                 has_call = any(isinstance(x, ast.Call) for x in ast.walk(st))
                 is_compound = isinstance(st, (ast.If, ast.For, ast.While, ast.Try, ast.With))
+                # a helper of the same class whose straight-line body ends with the phase set to a literal phases["k"]
+                if isinstance(st, ast.Expr) and isinstance(st.value, ast.Call) and isinstance(st.value.func, ast.Attribute) and \
+                        norm(st.value.func.value) == "self" and func.cls is not None and depth[0] < 2:
+                    h = func.cls.find_method(st.value.func.attr)
+                    if h is not None and not any(isinstance(x, (ast.If, ast.For, ast.While, ast.Try, ast.With, ast.Return)) for x in h.node.body):
+                        depth[0] += 1
+                        try:
+                            end = block(h.node.body)
+                        finally:
+                            depth[0] -= 1
+                        if end is not None:
+                            cur = end
+                            continue
                 if is_compound:
                     for sub in (getattr(st, "body", []), getattr(st, "orelse", []), getattr(st, "finalbody", [])):
                         block(sub)
@@ -478,6 +491,8 @@ class ParserModel:
                 elif has_call:
                     # a store through the phase (`self.parser.phase.originalPhase = x`) keeps it
                     cur = None
+            return cur
+        depth = [0]
         block(func.node.body)
         return out
 
